@@ -218,8 +218,12 @@ def run_case(case, R):
                             return C09.vmap_multi(fn, parts)
                         tags = [f"n={n}", f"prepend={pk}", f"append={ak}", f"axis_len={shape[ax]}",
                                 "empty_result" if shape[ax] + (pk != "absent") + (ak != "absent") - n <= 0 else "nonempty_result"]
-                        for sp_, f in (("numpoly", lambda: numpoly.diff(p, n=n, axis=ax, **kw)),
-                                       ("numpy", lambda: numpy.diff(p, n=n, axis=ax, **kw))):
+                        pos = [n, ax] + ([kw["prepend"], kw["append"]] if len(kw) == 2 else [kw["prepend"]] if "prepend" in kw else [])
+                        forms = [("numpoly", lambda: numpoly.diff(p, n=n, axis=ax, **kw)), ("numpy", lambda: numpy.diff(p, n=n, axis=ax, **kw))]
+                        if "append" not in kw or "prepend" in kw:
+                            # the same arguments given positionally, in numpy's order (a, n, axis, prepend, append)
+                            forms += [("numpoly positional", lambda: numpoly.diff(p, *pos)), ("numpy positional", lambda: numpy.diff(p, *pos))]
+                        for sp_, f in forms:
                             judge(R, f"diff[{sp_}] n={n} axis={ax} prepend={pk} append={ak} on {shape}/{rot}", "diff", f, ref, tags)
     elif k == "ediff1d":
         R.state("ediff1d")
@@ -247,7 +251,11 @@ def run_case(case, R):
                         return C09.vmap_multi(lambda cs: numpy.concatenate(cs), parts)
                     tags = [f"to_begin={bk}", f"to_end={ek}", f"size={int(numpy.prod(shape))}",
                             "empty_result" if int(numpy.prod(shape)) == 1 else "nonempty_result"]  # the difference part is empty
-                    for sp_, f in (("numpoly", lambda: numpoly.ediff1d(p, **kw)), ("numpy", lambda: numpy.ediff1d(p, **kw))):
+                    forms = [("numpoly", lambda: numpoly.ediff1d(p, **kw)), ("numpy", lambda: numpy.ediff1d(p, **kw))]
+                    if "to_end" in kw:
+                        posargs = [kw["to_end"]] + ([kw["to_begin"]] if "to_begin" in kw else [])   # numpy's order: (ary, to_end, to_begin)
+                        forms += [("numpoly positional", lambda: numpoly.ediff1d(p, *posargs)), ("numpy positional", lambda: numpy.ediff1d(p, *posargs))]
+                    for sp_, f in forms:
                         judge(R, f"ediff1d[{sp_}] to_begin={bk} to_end={ek} on {shape}/{rot}", "ediff1d", f, ref, tags)
     elif k == "innerouter":
         R.state("innerouter")
